@@ -19,7 +19,8 @@ offer entry (TTL 0 for a StopOffer) for `remote` -/
 theorem gen_sendOffer_tie (s : Stack) (i : Nat) (x : Instance) (remote : Dest) (stop : Bool) (hx : s.getInst i = some x) :
     s.sendOffer i remote stop =
       if Gen.offerSuppressed x.task remote x.canAnswer stop = true then s
-      else s.queueSend (x.service.createOfferEntry (if stop then 0 else s.tm.announceTtl)) remote := by
+      else (s.logOffer i (if stop then .stopOffer else .offer remote.isSome)).queueSend
+        (x.service.createOfferEntry (if stop then 0 else s.tm.announceTtl)) remote := by
   rw [gen_offerSuppressed_eq]
   simp [sendOffer, hx]
 
